@@ -84,9 +84,9 @@ func (c *Check) Rule(id, text string) { c.Rules[id] = text }
 func (c *Check) add(rule, construct, pos string, st Status, detail string) {
 	c.Obls = append(c.Obls, Obligation{Rule: rule, Construct: construct, Pos: pos, Status: st, StatusS: st.String(), Detail: detail})
 }
-func (c *Check) OK(rule, construct, pos, how string)   { c.add(rule, construct, pos, Discharged, how) }
-func (c *Check) Bad(rule, construct, pos, why string)  { c.add(rule, construct, pos, Violated, why) }
-func (c *Check) Unk(rule, construct, pos, why string)  { c.add(rule, construct, pos, Undecided, why) }
+func (c *Check) OK(rule, construct, pos, how string)  { c.add(rule, construct, pos, Discharged, how) }
+func (c *Check) Bad(rule, construct, pos, why string) { c.add(rule, construct, pos, Violated, why) }
+func (c *Check) Unk(rule, construct, pos, why string) { c.add(rule, construct, pos, Undecided, why) }
 func (c *Check) Floor(name string, got, min int, why string) {
 	c.Floors = append(c.Floors, Floor{name, got, min, why})
 	if got < min {
